@@ -244,7 +244,7 @@ class Ctx(object):
     def snap(self):
         cache = core.local.db2cache.get(self.env.db)
         if cache is None or not cache.is_alive:
-            return {'alive': False, 'inTxn': False, 'immediate': not self.opt, 'toSave': [], 'forUpd': [], 'objs': []}
+            return {'alive': False, 'inTxn': False, 'immediate': not self.opt, 'toSave': [], 'qcache': 0, 'forUpd': [], 'objs': []}
         E = self.env.E
         bits = [E._bits_[getattr(E, n)] for n in NAMES]
         objs = []
@@ -260,7 +260,7 @@ class Ctx(object):
                          'wbits': [i for i, b in enumerate(bits) if obj._wbits_ & b],
                          'dbvals': pairs(obj._dbvals_), 'vals': pairs(obj._vals_)})
         return {'alive': True, 'inTxn': bool(cache.in_transaction), 'immediate': bool(cache.immediate),
-                'toSave': [x._pkval_ for x in cache.objects_to_save if x is not None],
+                'toSave': [x._pkval_ for x in cache.objects_to_save if x is not None], 'qcache': len(cache.query_results),
                 'forUpd': sorted(x._pkval_ for x in cache.for_update), 'objs': objs}
 
 
@@ -291,12 +291,14 @@ def do_op(ctx, op):
         ctx.objs[o] = obj
         if (o, op['a']) not in ctx.written: ctx.seen.setdefault((o, op['a']), op['v'])
         return 'ok', 1
-    if k == 'select':                   # select(x for x in E if x.a == v)[.for_update()][:]; `x.id != n` with a fresh n keeps the
-        name = NAMES[op['a']]           # query-result cache of the session from answering (the model has no such cache)
+    if k == 'select':                   # select(x for x in E if x.a == v)[.for_update()][:]  (may be answered by cache.query_results)
+        name = NAMES[op['a']]
         val = dec(KIND[name], op['v'])
-        QN[0] -= 1; n = QN[0]
-        q = select(x for x in E if getattr(x, name) == val and x.id != n)
-        if op['fu']: q = q.for_update()
+        # one translator per (attribute, plain / for update): a translator that has once built the FOR UPDATE statement keeps
+        # `query_result_is_cacheable = False`, and one that is re-created for another pinned attribute name (getattr) starts
+        # with True again; Pony's intent, and the model: FOR UPDATE results are never cached, plain ones always
+        if op['fu']: q = select('y for y in E if y.%s == val' % name).for_update()
+        else: q = select('x for x in E if x.%s == val' % name)
         found = q[:]
         for obj in found:
             o = obj.id
@@ -533,6 +535,9 @@ def template_cases(rng, limit):
         w = (a + 1) % len(ATTRS)
         pairs.append(([S, wr(w, 70), C], [G, wr(a, 80), C]))                             # attribute read by a query criterion (_set_rbits)
         pairs.append(([SU, K, wr(w, 71), C], [G, wr(a, 81), C]))                         # Query.for_update; the exemption ends at commit
+        if a in (0, 1):
+            pairs.append(([S, S, wr(w, 72), S, C], [G, wr(a, 82), C]))                   # the same query again: cache.query_results answers
+            pairs.append(([S, wr(w, 73), F, S, wr(w, 74), C], [G, wr(a, 83), C]))        # a flush of modifications drops the cached result
     pairs.append(([GU, rd(0), wr(0, 53), C], [G, rd(0), wr(0, 63), C]))                # locked for update
     pairs.append(([G, rd(0), K, wr(0, 54), C], [G, rd(0), wr(0, 64), C]))              # second transaction of a session
     pairs.append(([GU, rd(0), K, wr(1, 57), C], [G, wr(0, 67), C]))                    # the for_update exemption ends at commit
